@@ -276,8 +276,8 @@ func (ef *Effects) ParseRegion(m string, from *types.Package) ([]string, error) 
 func (ef *Effects) mapRegions(mt *types.Map) []string {
 	ks, vs := ef.tm.SortOf(mt.Key()), ef.tm.SortOf(mt.Elem())
 	ef.regionSorts[mapValKey(ks, vs)] = ArrSort(SRef, ArrSort(ks, vs))
-	ef.regionSorts[mapDomKey(ks)] = ArrSort(SRef, ArrSort(ks, SBool))
-	return []string{mapValKey(ks, vs), mapDomKey(ks), mapLenKey}
+	ef.regionSorts[mapDomKey(ks, vs)] = ArrSort(SRef, ArrSort(ks, SBool))
+	return []string{mapValKey(ks, vs), mapDomKey(ks, vs), mapLenKey}
 }
 
 // ---------------------------------------------------------------------------
